@@ -173,6 +173,15 @@ var specs = map[string]*CheckSpec{
 		Stub:   append([]string{"atp server -> scripted server (reactive transcript, canonical CBOR)"}, commonStub...),
 		Assume: []string{"premise: the server stream ends, errors or garbles; runs in which only the client's writes failed while the server stream stayed intact are excluded and counted", "a success result is legitimate iff a well-formed work-done for that run ID is present in the bytes actually delivered, as decided by the reference decoder"},
 	},
+	"C19": {
+		ID: "C19", Flavour: "codegen", Level: "exploration",
+		Quick:    []Batch{{Name: "c19.docs", Count: 700}, {Name: "c19.mapkw", Count: 80}},
+		Thorough: []Batch{{Name: "c19.docs", Count: 60000}, {Name: "c19.mapkw", Count: 4000}},
+		Rule:     "each trial = one generated schema YAML document (0-6 objects x 0-6 properties, every type ID, references to existing and missing objects, identifier-valid names) fed to the code generator built from the working tree with a map-order seam, as a subprocess in a fresh temporary directory, with and without the ignore argument, under the natural, three drawn, the reversed and the runtime's own map iteration order (12 executions per trial); oracles: exit status 0 and no panic, byte-identical output across orders, output parses with go/parser and contains exactly the modelled structs and JSON-tagged typed fields; distinct = distinct document; non-trivial = at least two objects or two properties",
+		Real:     []string{"cmd/arcaflow-codegen/gen.go (whole program, as a subprocess), go/format, yaml.v3, x/text"},
+		Stub:     []string{"runtime map iteration order -> local zzMapOrder seam driven by the environment"},
+		Assume:   []string{"the generator's working directory and argument vector are the only inputs besides the document", "go:generate integration is not exercised"},
+	},
 	"C13": {
 		ID: "C13", Flavour: "schema", Race: true, Level: "exploration",
 		Quick: []Batch{
@@ -394,6 +403,9 @@ func seedFromEnv() uint64 {
 	return 1
 }
 
+// codegenBin is the instrumented code generator of the current check (flavour "codegen").
+var codegenBin string
+
 var beginRe = regexp.MustCompile(`^(BEGIN|END) (\d+)`)
 
 type workerResult struct {
@@ -407,7 +419,7 @@ type workerResult struct {
 func runWorker(bin string, job Job, timeout time.Duration, race bool) workerResult {
 	jb, _ := json.Marshal(job)
 	cmd := exec.Command(bin, "-test.run", "^TestWorker$", "-test.timeout", "0", "-test.count", "1")
-	cmd.Env = append(os.Environ(), "VERIF_JOB="+string(jb), "GOMAXPROCS=2")
+	cmd.Env = append(os.Environ(), "VERIF_JOB="+string(jb), "GOMAXPROCS=2", "VERIF_CODEGEN_BIN="+codegenBin)
 	if race {
 		cmd.Env = append(cmd.Env, "GORACE=halt_on_error=0 log_path="+job.Out+".race", "VERIF_RACE_LOG="+job.Out+".race")
 	}
@@ -522,6 +534,7 @@ func doCheck(id, tier string) int {
 	if err := buildHarness(prep, spec.Race, bin); err != nil {
 		infraExit("%v", err)
 	}
+	codegenBin = prep.CodegenBin
 	buildS := time.Since(start).Seconds()
 
 	batches := spec.Quick
